@@ -436,14 +436,21 @@ func (c *Ctx) closedSumNoMatchEdge(pred, succ *ssa.BasicBlock) bool {
 // and otherwise holds the sentinel -1, which the path to b excludes. Returns X.
 func (lf *lenFacts) rangeIndexOver(idx ssa.Value, b *ssa.BasicBlock, pc *core.PathConds) ssa.Value {
 	idx = core.Strip(idx)
-	ph, ok := idx.(*ssa.Phi)
-	if !ok {
+	if _, ok := idx.(*ssa.Phi); !ok {
 		return nil
 	}
-	// the path excludes -1
-	notMinus1 := pc.Requires(b, func(l core.Lit) bool {
+	if !excludesMinus1(idx, b, pc) {
+		return nil
+	}
+	return leavesIndexOver(idx)
+}
+
+// excludesMinus1: on every path to b the value has been tested to differ from -1 (or to be
+// non-negative).
+func excludesMinus1(v ssa.Value, b *ssa.BasicBlock, pc *core.PathConds) bool {
+	return pc.Requires(b, func(l core.Lit) bool {
 		bo, ok := l.Cond.(*ssa.BinOp)
-		if !ok || bo.X != ssa.Value(ph) {
+		if !ok || bo.X != v {
 			return false
 		}
 		k, ok := core.ConstInt(bo.Y)
@@ -464,61 +471,124 @@ func (lf *lenFacts) rangeIndexOver(idx ssa.Value, b *ssa.BasicBlock, pc *core.Pa
 		}
 		return false
 	})
-	if !notMinus1 {
-		return nil
-	}
+}
+
+// leavesIndexOver: through phis, every value v can hold is the constant -1 or the index of a
+// loop over one slice X, copied inside the body of that loop (where it is in range). Returns X.
+func leavesIndexOver(v ssa.Value) ssa.Value {
 	var X ssa.Value
 	seen := map[ssa.Value]bool{}
-	var walk func(v ssa.Value) bool
-	walk = func(v ssa.Value) bool {
-		if seen[v] {
-			return true
+	setX := func(x ssa.Value) bool {
+		if X != nil && core.Canon(X) != core.Canon(x) {
+			return false
 		}
-		seen[v] = true
+		X = x
+		return true
+	}
+	// counterOver: c is the index of a loop (rotated range index or classic counter) whose
+	// head tests it against len(X); returns X and the first block of the loop body
+	counterOver := func(cv ssa.Value) (ssa.Value, *ssa.BasicBlock) {
+		var head *ssa.BasicBlock
+		switch x := cv.(type) {
+		case *ssa.BinOp:
+			head = x.Block()
+		case *ssa.Phi:
+			head = x.Block()
+		default:
+			return nil, nil
+		}
+		if !unitCounter(cv, head) || len(head.Succs) != 2 {
+			return nil, nil
+		}
+		iff, ok := head.Instrs[len(head.Instrs)-1].(*ssa.If)
+		if !ok {
+			return nil, nil
+		}
+		cond, ok := iff.Cond.(*ssa.BinOp)
+		if !ok || cond.Op != token.LSS || cond.X != cv {
+			return nil, nil
+		}
+		lc, ok := core.Strip(cond.Y).(*ssa.Call)
+		if !ok || !isLenCall(lc) {
+			return nil, nil
+		}
+		return lc.Call.Args[0], head.Succs[0]
+	}
+	var walk func(v ssa.Value, from *ssa.BasicBlock) bool
+	walk = func(v ssa.Value, from *ssa.BasicBlock) bool {
 		if k, ok := core.ConstInt(v); ok && k == -1 {
 			return true
 		}
-		switch x := v.(type) {
-		case *ssa.Phi:
-			for i, e := range x.Edges {
-				if bo, ok := e.(*ssa.BinOp); ok {
-					// the loop index is only copied inside the loop body, where it is in range
-					if len(bo.Block().Succs) != 2 || !bo.Block().Succs[0].Dominates(x.Block().Preds[i]) {
-						return false
-					}
-				}
-				if !walk(e) {
-					return false
-				}
-			}
-			return true
-		case *ssa.BinOp:
-			// the rotated range index: phi[-1, t] + 1, tested `t < len(X)` at its loop head
-			if !unitCounter(x, x.Block()) {
+		if x, body := counterOver(v); x != nil {
+			// the index is only copied inside the loop body, where it is in range
+			if from == nil || !body.Dominates(from) {
 				return false
 			}
-			iff, ok := x.Block().Instrs[len(x.Block().Instrs)-1].(*ssa.If)
-			if !ok {
-				return false
-			}
-			cond, ok := iff.Cond.(*ssa.BinOp)
-			if !ok || cond.Op != token.LSS || cond.X != ssa.Value(x) {
-				return false
-			}
-			lc, ok := core.Strip(cond.Y).(*ssa.Call)
-			if !ok || !isLenCall(lc) {
-				return false
-			}
-			if X != nil && core.Canon(X) != core.Canon(lc.Call.Args[0]) {
-				return false
-			}
-			X = lc.Call.Args[0]
+			return setX(x)
+		}
+		ph, ok := v.(*ssa.Phi)
+		if !ok {
+			return false
+		}
+		if seen[ph] {
 			return true
 		}
-		return false
+		seen[ph] = true
+		for i, e := range ph.Edges {
+			if !walk(e, ph.Block().Preds[i]) {
+				return false
+			}
+		}
+		return true
 	}
-	if !walk(ph) || X == nil {
+	if !walk(v, nil) || X == nil {
 		return nil
 	}
 	return X
+}
+
+// indexParamInRange: the site x[idx] where both are parameters of fn is within bounds
+// because, at every call of fn, the index argument only holds -1 or the index of a loop over
+// a slice of the length of the slice argument, and the site itself excludes -1.
+func (lf *lenFacts) indexParamInRange(fn *ssa.Function, x, idx ssa.Value, b *ssa.BasicBlock, pc *core.PathConds) bool {
+	px, ok1 := resolveLocal(x).(*ssa.Parameter)
+	pi, ok2 := core.Strip(idx).(*ssa.Parameter)
+	if !ok1 || !ok2 || px.Parent() != fn || pi.Parent() != fn {
+		return false
+	}
+	if !excludesMinus1(pi, b, pc) {
+		return false
+	}
+	ix, ii := paramIndex(fn, px), paramIndex(fn, pi)
+	n := 0
+	for _, g := range lf.c.P.ModuleFunctions() {
+		var gpc *core.PathConds
+		for _, ci := range core.Calls(g) {
+			if ci.Common().StaticCallee() != fn {
+				continue
+			}
+			n++
+			args := ci.Common().Args
+			if ix >= len(args) || ii >= len(args) {
+				return false
+			}
+			X := leavesIndexOver(core.Strip(args[ii]))
+			if X == nil {
+				return false
+			}
+			if gpc == nil {
+				gpc = core.NewPathConds(g)
+			}
+			same := false
+			for _, v := range lf.sameLen(args[ix], ci.Block(), gpc) {
+				if core.Canon(v) == core.Canon(X) {
+					same = true
+				}
+			}
+			if !same {
+				return false
+			}
+		}
+	}
+	return n > 0
 }
